@@ -13,6 +13,12 @@ def build(name, args):
     if name == "golomb":
         from nucs.examples.golomb.golomb_problem import GolombProblem
         return GolombProblem(*args)
+    if name == "golomb_bounded":       # all rulers with the given number of marks and a length <= bound
+        from nucs.examples.golomb.golomb_problem import GolombProblem
+        marks, bound = args[0], args[1]
+        prob = GolombProblem(marks, *args[2:])
+        prob.shr_domains_lst[int(prob.length_idx)][1] = bound
+        return prob
     if name == "knapsack":
         from nucs.examples.knapsack.knapsack_problem import KnapsackProblem
         return KnapsackProblem(*args)
